@@ -40,7 +40,7 @@ ASSUMPTIONS = [
 MARKERS = ['QXZV', 'Zyxwvut']
 # markers that end in letters which are also connector words (a clean-up that strips 'and' / 'in' / 'of' / 'the' must not
 # bite into an ordinary word); used on the intact, colon-less, lead and trail variants
-TAIL_MARKERS = ['Woodland', 'Franklin', 'Thereof', 'Bathe']
+TAIL_MARKERS = ['Garland', 'Franklin', 'Thereof', 'Bathe']   # none starts with n/s/e/w: right after a Twp/Rge number such a letter *is* its direction
 # a three-letter word: with its two blanks the raw block reaches MIN_REPORTABLE_UNUSED_LEN, so it is reportable as well
 SHORT_MARKERS = ['QXZ']
 _TRAPS = None
@@ -65,7 +65,7 @@ EXTRA_SEEDS = [
 _p = None
 # a marker that is followed, on the same line and within the reach of the meridian pattern ('.{0,25}' plus filler), by a
 # P.M. designation may be discarded together with it (exempt by the statement); the predicate is deliberately a superset
-PM_WINDOW = re.compile(r'(QXZV?|Zyxwvut|Woodland|Franklin|Thereof|Bathe|Qx[a-z]+xq)[^\n]{0,45}?(?<![A-Za-z])(P\.\s?M\.|Principal\s+Meridian)',
+PM_WINDOW = re.compile(r'(QXZV?|Zyxwvut|Garland|Franklin|Thereof|Bathe|Qx[a-z]+xq)[^\n]{0,45}?(?<![A-Za-z])(P\.\s?M\.|Principal\s+Meridian)',
                        re.IGNORECASE)
 CONNECTORS = {'the', 'of', 'in', 'and', 'all'}
 
